@@ -22,6 +22,7 @@ def genCfg (ecsMax : Int) : Cfg :=
 
 def hardMaxProof : Int := SdnsVerif.Gen.C04.max_denial_proof_ns
 def cutMaxTTL : Int := SdnsVerif.Gen.C04.hist_cut_max_ns
+def proofMaxTTL : Int := SdnsVerif.Gen.C04.hist_proof_max_ns
 
 /-- op spacing inside one virtual second (see harness/c04/hist.go). -/
 def tau : Int := 20000000
@@ -124,7 +125,8 @@ def parseSpec (s : String) : Option Spec :=
       let ans ← parseItems ans
       let ns ← parseItems ns
       let lease ← parseRel lease
-      some { name := name, kind := kc, tgt := "n" ++ (k.drop 1).toString, ans := ans, ns := ns, lease := lease, isScoped := sc == "s" }
+      let rest := (k.drop 1).toString
+      some { name := name, kind := kc, tgt := if rest.startsWith "p" then rest else "n" ++ rest, ans := ans, ns := ns, lease := lease, isScoped := sc == "s" }
     | _ => none
   | _ => none
 
@@ -141,6 +143,7 @@ structure Reply where
   expired : Bool := false                 -- carries an RRSIG with D < 0
   lastCname : Option String := none       -- target of the last CNAME of the answer section
   hasType : Bool := false                 -- the answer section holds a record of the question type
+  synth : Option (String × Nat) := none   -- carries a validated RFC 8198 synthesis (owner index, TTL shown)
 deriving Repr
 
 structure HState where
@@ -151,6 +154,10 @@ structure HState where
   nextId : Nat := 0
   captured : List (String × Option Nat) := []
   cuts : List (String × Int) := []
+  -- the RFC 8198 proof index of zone pz.test.: the one SOA entry and one NSEC entry per owner;
+  -- (expires, generation, record item, signature item)
+  proofSoa : Option (Int × Nat × Item × Item) := none
+  proofNsec : List (String × (Int × Nat × Item × Item)) := []
 
 def getSlot (st : HState) (k : String × Bool) : Option HEntry := (st.slots.find? (fun p => p.1 == k)).map (·.2)
 def delSlot (st : HState) (k : String × Bool) : HState := { st with slots := st.slots.filter (fun p => p.1 != k) }
@@ -188,21 +195,68 @@ def mergeReply (r s : Reply) : Reply :=
   { ans := r.ans ++ s.ans, ansTTL := r.ansTTL ++ s.ansTTL,
     ns := r.ns ++ s.ns.filter (fun n => !(r.ns.any fun m => m.rid == n.rid)),
     nx := r.nx || s.nx, fresh := r.fresh ++ s.fresh, expired := r.expired || s.expired,
-    lastCname := if s.lastCname.isSome then s.lastCname else r.lastCname, hasType := r.hasType || s.hasType }
+    lastCname := if s.lastCname.isSome then s.lastCname else r.lastCname, hasType := r.hasType || s.hasType,
+    synth := if s.synth.isSome then s.synth else r.synth }
+
+def sigPRR (now : Int) (ttl : Nat) (g : Item) : ProofRR :=
+  { rr := { ttl := ttl, kind := .rrsig (now + g.b * S) }, orig := g.a.toNat }
+
+/-- `RecordDenialProof` for owner `i` at `now`: records with the given TTLs
+(the admitted ones, or the TTL a synthesis showed when its proof is re-recorded). -/
+def recordProof (st : HState) (i : String) (now : Int) (cut : Option Int)
+    (sTtl : Nat) (s g : Item) (pTtl : Nat) (p g2 : Item) (gsTtl g2Ttl : Nat) (gen : Nat) : Option HState :=
+  let common : List ProofRR := [{ rr := { ttl := sTtl, kind := .soa s.a.toNat } }, sigPRR now gsTtl g]
+  let set : List ProofRR := [{ rr := { ttl := pTtl } }, sigPRR now g2Ttl g2]
+  match proofAdmit hardMaxProof now proofMaxTTL cut common set with
+  | none => none
+  | some (se, ne) =>
+    some { st with proofSoa := some (se, gen, s, g),
+                   proofNsec := (i, (ne, gen, p, g2)) :: st.proofNsec.filter (·.1 != i) }
+
+/-- `lookupDenialProof` + `denialProofResponse` for owner `i`. -/
+def synthReply (st : HState) (i : String) (now : Int) : Option (Reply × Int) :=
+  match st.proofSoa, st.proofNsec.lookup i with
+  | some (se, sgen, s, g), some (ne, ngen, _p, g2) =>
+    match synthServe se [ne] now with
+    | none => none
+    | some (ttl, exp) =>
+      let ns : List NsRec := [
+        { rid := (1000000 + sgen, 0), owner := "sz", ttl := ttl, kind := .soa s.a.toNat },
+        { rid := (1000000 + sgen, 1), owner := "sz", ttl := ttl, kind := .sig g.b },
+        { rid := (2000000 + ngen, 0), owner := "s" ++ i, ttl := ttl, kind := .plain },
+        { rid := (2000000 + ngen, 1), owner := "s" ++ i, ttl := ttl, kind := .sig g2.b }]
+      some ({ ns := ns, synth := some (i, ttl) }, exp)
+  | _, _ => none
+
+/-- `ResponseWriter.WriteMsg`: a response that carries the provenance of a
+validated synthesis re-records that proof (with the TTLs it was shown with)
+under the request tree's cut. -/
+def rerecord (st : HState) (r : Reply) (now : Int) (cut : Option Int) : HState :=
+  match r.synth, st.proofSoa with
+  | some (i, ttl), some (_, sgen, s, g) =>
+    match st.proofNsec.lookup i with
+    | some (_, ngen, p, g2) =>
+      -- the generations (record identities) stay: the same RDATA is stored again
+      match recordProof st i now cut ttl s g ttl p g2 ttl ttl sgen with
+      | some st' =>
+        { st' with proofNsec := st'.proofNsec.map fun e => if e.1 == i then (e.1, (e.2.1, ngen, e.2.2.2.1, e.2.2.2.2)) else e }
+      | none => st
+    | none => st
+  | _, _ => st
 
 /-- `Cache.ServeDNS` for one (sub-)query at `now`; returns the reply (if any
 was written) and the request tree's delegation-cut bound (`ResponseMeta.Cut`). -/
 def serve (cfg : Cfg) (script : List (String × Spec)) (now : Int) :
-    Nat → HState → String → Bool → Bool → HState × Option Reply × Option Int
-  | 0, st, _, _, _ => (st, none, none)
-  | fuel + 1, st, name, ecs, internal =>
+    Nat → HState → String → Bool → Bool → Bool → HState × Option Reply × Option Int
+  | 0, st, _, _, _, _ => (st, none, none)
+  | fuel + 1, st, name, ecs, internal, bypass =>
     -- one pass of the `lookup:` loop of `additionalAnswer`: query `t` through
     -- the sub-pipeline; the Bool says whether the loop is over, the String is
     -- the next target (`child && !respCnameHasType`)
     let chaseOnce (st : HState) (r : Reply) (t : String) (mcut : Option Int) :
         HState × Reply × Option Int × Option String :=
       -- internalExchange: the sub-query accumulates its own bound (ForkCut)
-      match serve cfg script now fuel st t false true with
+      match serve cfg script now fuel st t false true bypass with
       | (st, none, _) => (st, r, mcut, none)
       | (st, some s, child) =>
         if s.ans.isEmpty && s.ns.isEmpty then
@@ -212,6 +266,8 @@ def serve (cfg : Cfg) (script : List (String × Spec)) (now : Int) :
           let r' := mergeReply r s
           let mcut' := (forkInherit mcut [child] true).1
           if s.nx then (st, r', mcut', none)
+          -- a validated NODATA proof on the target ends the chase (its provenance is propagated)
+          else if s.synth.isSome then (st, r', mcut', none)
           else match s.lastCname with
             | some t' => if s.hasType then (st, r', mcut', none) else (st, r', mcut', some t')
             | none => (st, r', mcut', none)
@@ -230,6 +286,13 @@ def serve (cfg : Cfg) (script : List (String × Spec)) (now : Int) :
             if t3 == t || t3 == t2 then (st, r, mcut) else
             let (st, r, mcut, _) := chaseOnce st r t3 mcut
             (st, r, mcut)
+    -- a name of the proof zone: never admitted itself; CD / ECS request trees bypass shared denial
+    if name.startsWith "p" then
+      if bypass then (st, none, none) else
+      match synthReply st (name.drop 1).toString now with
+      | some (r, exp) => (st, some r, boundCut none (some exp))     -- boundRequestTo(ctx, proofExpires)
+      | none => (st, none, none)
+    else
     match lookupSlots st name (ecs && !internal) now with
     | (st, some he) =>
       -- handleCacheHit: ToMsg / serveWire / serveWireIntoRequest all stamp `secs (remaining now)`
@@ -260,6 +323,7 @@ def serve (cfg : Cfg) (script : List (String × Spec)) (now : Int) :
                             hasType := sp.kind == 'p' && !sp.ans.isEmpty }
         -- ResponseWriter.WriteMsg: chase first, then read the mcut and store
         let (st, r, mcut) := if sp.kind == 'c' then chase st r0 (some sp.tgt) mcut else (st, r0, mcut)
+        let st := if bypass then st else rerecord st r now mcut
         let hasAns := !sp.ans.isEmpty
         let rt : RespType :=
           if r.nx then .nxdomain
@@ -349,7 +413,7 @@ def stepHist (st : State) (w : List String) : State × String :=
           | some t => ({ st with h := h }, "hit " ++ tok ++ "~" ++ toString t)
       else
         let id0 := h.nextId
-        let (h', r, _) := serve (genCfg h.ecsCap) script now 14 h name ecs false
+        let (h', r, _) := serve (genCfg h.ecsCap) script now 14 h name ecs false ecs
         let head := match r with
           | none => "miss"
           | some r =>
@@ -398,6 +462,20 @@ def stepHist (st : State) (w : List String) : State × String :=
         | none => ({ st with h := h }, "pf")
       | _, _ => ({ st with h := h }, "pf")
     | none => (st, "bad-op")
+  | ["c", "prec", k, items, lease] =>
+    match parseItems items, parseRel lease with
+    | some [s, g, p, g2], some lease =>
+      let h := { h with j := h.j + 1 }
+      let now := nowOf h
+      let id := h.nextId
+      let h := { h with nextId := id + 1 }
+      match recordProof h k now (lease.map fun l => now + l * S) s.ttl s g p.ttl p g2 g.ttl g2.ttl id with
+      | none => ({ st with h := h }, "f")
+      | some h' =>
+        let se := match h'.proofSoa with | some (e, _, _, _) => e | none => now
+        let ne := match h'.proofNsec.lookup k with | some (e, _, _, _) => e | none => now
+        ({ st with h := h' }, "t soa=" ++ toString (ceilDiv (se - now)) ++ " nsec=" ++ toString (ceilDiv (ne - now)))
+    | _, _ => (st, "bad-op")
   | ["c", "cutrec", k, items, lease] =>
     match parseItems items, parseRel lease with
     | some [s, g1, p, g2], some lease =>
